@@ -21,6 +21,10 @@ def MakeCustomaryToBase(a: Any, b: Any, c: Any, d: Any) -> UnaryConversionFunc:
         Returns a callable with the conversion to the base.
     """
 
+    # The coefficients are always floats (some rows write them as ints, and integer numpy arrays would
+    # be converted with integer arithmetic of their own width, overflowing without notice).
+    a, b, c, d = float(a), float(b), float(c), float(d)
+
     if d == 0:
         # Linear conversion: the null term d * x is left out (it is nan for an infinite x).
         def ret(x: Any) -> Any:
@@ -53,6 +57,9 @@ def MakeBaseToCustomary(a: Any, b: Any, c: Any, d: Any) -> UnaryConversionFunc:
          Returns a callable with the conversion from the base to a unit (depending on the
          coefficients).
     """
+
+    # The coefficients are always floats (see MakeCustomaryToBase).
+    a, b, c, d = float(a), float(b), float(c), float(d)
 
     if d == 0:
         # Linear conversion: the null term d * y is left out (it is nan for an infinite y).
